@@ -109,6 +109,22 @@ def handle : Handler := fun j => do
       | .ok sb => [("uses", "ok"),
                    ("users", Json.arr (queries.map fun (n, v) => Json.arr ((users sb n v).map userToJson).toArray).toArray)]
     pure (Json.mkObj ([("lists", Json.arr lists.toArray), ("builds", Json.arr builds.toArray)] ++ usesPart))
+  | "setup" =>
+    -- `{"graph":G,"setup":[[n,v]..],"roots":[[n,v]..],"modes":[..]}`: `eups list -D --setup` listings
+    let db ← dbOfJson (← j.getObjVal? "graph")
+    let setup ← (← jarr j "setup").mapM fun x => do
+      match (← x.getArr?).toList with
+      | [a, b] => pure (Str.ofString (← a.getStr?), Str.ofString (← b.getStr?))
+      | _ => throw "expected [name, version] in the set-up list"
+    let roots ← (← jarr j "roots").mapM pairOfJson
+    let modes ← (← jarr j "modes").mapM fun m => do
+      let a ← m.getArr?
+      match a.toList with
+      | [t, c] => do pure (← t.getBool?, ← c.getBool?)
+      | _ => throw "expected [topological, checkCycles]"
+    let lists := roots.map fun (n, v) =>
+      Json.arr (modes.map fun (t, c) => outcomeToJson (getDependentProductsSetup db db.fuel ⟨n, v, true⟩ setup t c)).toArray
+    pure (Json.mkObj [("lists", Json.arr lists.toArray)])
   | "topo" =>
     let g ← natGraphOfJson j
     match Topo.topologicalSort g (← jbool j "cc") with
